@@ -31,7 +31,7 @@ func main() {
 	c := vf.Start("C04", "exploration")
 	n := c.Pick(6, 40)
 	var wg sync.WaitGroup
-	sem := make(chan struct{}, c.Pick(3, 6))
+	sem := make(chan struct{}, c.Pick(6, 6))
 	for i := 0; i < n; i++ {
 		wg.Add(1)
 		sem <- struct{}{}
